@@ -199,6 +199,39 @@ def committedSignals (s : State) (b : Block) : List Signal :=
   let o := beginBlock s b
   if o.panicked then [] else o.signals
 
+/-! ### what a subscriber sees when it queries the epochs keeper from INSIDE a signal
+
+`BeginBlocker` raises `AfterEpochEnd(n)` before anything of the tick is stored and `BeforeEpochStart(n+1)`
+AFTER `setEpochInfo` (abci.go: "emit new epoch start event, set epoch info, and run BeforeEpochStart hook"):
+during end-of-epoch `n` the store still holds the record of epoch `n`; during start-of-epoch `n+1` it already
+holds the ticked record (epoch `n+1`, its start time, this block's height, counting started).  Timers earlier
+in the iteration order have already been processed, later ones not yet. -/
+
+structure View where
+  call : Call
+  own : EpochInfo            -- `GetEpochInfo(identifier of the signalling timer)` inside the hook
+  all : List EpochInfo       -- `AllEpochInfos` inside the hook
+  sinceStart : Int           -- `NumBlocksSinceEpochStart` = block height − stored start height
+  deriving Repr
+
+/-- the stored record of the signalling timer during a signal: `pre` = before the block, `post` = what
+`processTimer` stores. -/
+def seenDuring (pre post : EpochInfo) : Kind → EpochInfo
+  | .epochEnd => pre
+  | .epochStart => post
+
+def viewsFrom (t h : Int) (scr : Script) : List EpochInfo → List EpochInfo → List Store → List View
+  | _, [], _ => []
+  | done, e :: rest, subs =>
+    let r := processTimer t h scr e subs
+    let vs := r.calls.map fun c =>
+      let own := seenDuring e r.info c.kind
+      ({ call := c, own := own, all := done ++ own :: rest, sinceStart := h - own.currentEpochStartHeight } : View)
+    if r.panicked then vs else vs ++ viewsFrom t h scr (done ++ [r.info]) rest r.subs
+
+/-- one view per hook invocation of the block, in invocation order. -/
+def blockViews (s : State) (b : Block) : List View := viewsFrom b.t b.h b.script [] s.timers s.subs
+
 /-- `EpochInfo.Validate` -/
 def validate (e : EpochInfo) : Bool :=
   e.identifier ≠ "" && e.duration ≠ 0 && decide (0 ≤ e.currentEpoch) && decide (0 ≤ e.currentEpochStartHeight)
